@@ -82,6 +82,7 @@ def run(ctx):
     _resolution(ctx)
     _sites(ctx)
     _serialization(ctx)
+    _direct(ctx)
 
 
 # ------------------------------------------------------------------ helpers shared by the three parts
@@ -563,6 +564,34 @@ def _rand_text(rnd, xml_safe, maxlen=12):
     return ''.join(rnd.choice(rnd.choice(pools)) for _ in range(n))
 
 
+VND_JSON = 'application/vnd.acme+json'
+_SIMPLE_RANGE = __import__('re').compile(r'^\s*(\*|\*/\*|[a-z0-9.+-]+/(?:[a-z0-9.+-]+|\*))\s*(;\s*[qQ]=\s*([0-9]*\.?[0-9]+))?\s*$')
+LINK_DEFAULT = 'Documentation related to this error'
+
+
+def _hx(t):
+    """hex of a latin-1 string, '-' for the empty string (esdriver's string format)"""
+    return t.encode('latin-1').hex() or '-'
+
+
+def _flag(v):
+    """how the Es driver is told about an optional string argument: None / empty / given (the content is irrelevant to the model)"""
+    return 'none' if v is None else ('-' if v == '' else '41')
+
+
+def _doc_fields(doc, status_line):
+    """`todict` reply of the driver for a decoded error document (document order)"""
+    parts = []
+    for k, v in doc.items():
+        if k == 'title':
+            parts.append('title:' + ('status' if v == status_line else 'given'))
+        elif k == 'link':
+            parts.append('link:' + ('default' if isinstance(v, dict) and v.get('text') == LINK_DEFAULT else 'given'))
+        else:
+            parts.append(k)
+    return ' '.join(parts)
+
+
 def _serialization(ctx):
     import http
     import json
@@ -574,15 +603,18 @@ def _serialization(ctx):
     name_http = 'default HTTPError response: own status and headers, Vary: Accept, body = faithful encoding (JSON unless the client prefers XML / a configured type) of title/description/code/link'
     name_status = 'default HTTPStatus response: its status, headers and text'
     name_plain = 'any other Exception: 500 with the JSON error body, never escapes'
+    sess = ctx.session('default rendering by the app (WSGI+ASGI): Content-Type chosen / body presence / field set / status and headers = '
+                       'Es.serializeChoice, Es.toDict, Es.composeError, Es.composeStatus', 'esdriver')
 
     class YamlishHandler(falcon.media.BaseHandler):
+        """a configured response media handler; its output is recognisable (marker) and keeps the order of the document"""
         def serialize(self, media, content_type):
-            return b'YAMLISH:' + json.dumps(media, sort_keys=True).encode('utf-8')
+            return b'YAMLISH:' + json.dumps(media).encode('utf-8')
 
         def deserialize(self, stream, content_type, content_length):
             return json.loads(stream.read()[8:])
 
-    ranges_pool = [JSON, XML_A, XML_T, 'text/html', '*/*', 'application/*', 'text/*', 'application/vnd.acme+json', 'application/vnd.acme+xml', YAML, 'image/png']
+    ranges_pool = [JSON, XML_A, XML_T, 'text/html', '*/*', 'application/*', 'text/*', VND_JSON, 'application/vnd.acme+xml', YAML, 'image/png']
     for ci in range(ctx.n(12000, 150000)):
         stack = rnd.choice(['wsgi', 'asgi'])
         asgi = stack == 'asgi'
@@ -590,6 +622,12 @@ def _serialization(ctx):
         site = rnd.choice(['responder', 'responder', 'req', 'rsrc', 'resp', 'before', 'after', 'sink'])
         xml_on = rnd.random() < 0.7
         yaml_on = rnd.random() < 0.3
+        # further configured response handlers: one keyed application/xml (predefined when XML is on), one with a +json suffix;
+        # sometimes the JSON handler / the two form handlers are removed
+        extra = ([YAML] if yaml_on else []) + ([XML_A] if rnd.random() < 0.1 else []) + ([VND_JSON] if rnd.random() < 0.1 else [])
+        rnd.shuffle(extra)
+        drop_json = rnd.random() < 0.05
+        drop_forms = rnd.random() < 0.1
         # Accept header
         accept = None
         ranges = [('*', '*', 1.0)]          # falcon's (and HTTP's) default when the header is absent
@@ -606,7 +644,7 @@ def _serialization(ctx):
             accept = rnd.choice([', ', ',']).join(parts)
         # what falcon may render an error as: JSON, XML if enabled, and the configured response media handlers other than the
         # request-only form types (multipart cannot serialize at all, a URL-encoded form cannot hold the error document)
-        offered = [JSON] + ([XML_T, XML_A] if xml_on else []) + ([YAML] if yaml_on else [])
+        offered = [JSON] + ([XML_T, XML_A] if xml_on else []) + [e for e in extra if not (xml_on and e == XML_A)]
         qs = {mt: _quality(mt, ranges) for mt in offered}
         top = max(qs.values())
         best = [mt for mt in offered if qs[mt] == top and top > 0]
@@ -616,7 +654,7 @@ def _serialization(ctx):
         elif '+json' in acc_l:
             allowed = [JSON]
         elif '+xml' in acc_l:
-            allowed = [XML_A] if xml_on else [None]
+            allowed = [XML_A] if (xml_on or XML_A in extra) else [None]
         else:
             allowed = [None]                         # the client accepts nothing falcon can produce: status and headers only
         xml_possible = any(a in (XML_A, XML_T) for a in allowed)
@@ -627,6 +665,8 @@ def _serialization(ctx):
                     for _ in range(rnd.randint(1, 2))}
             if rnd.random() < 0.3:
                 hdrs = list(hdrs.items())
+        # a header the response already carries when the error is raised (set by an earlier phase)
+        pre_hdr = rnd.choice([None, None, None, ('Vary', 'Origin'), ('X-Pre', 'p1'), ('X-Err', 'pre'), ('Retry-After', '7')])
         status_val = rnd.choice([400, 401, 403, 404, 409, 418, 422, 429, 500, 503, 599, 799, http.HTTPStatus.GONE, '418 I\'m a teapot', '748 Confounded by ponies', falcon.HTTP_412])
         code_int = falcon.code_to_http_status(status_val)
         status_int = int(code_int[:3])
@@ -647,13 +687,24 @@ def _serialization(ctx):
 
         def raiser(resp):
             raise make()
-        app = _install(falcon.asgi.App if asgi else falcon.App, asgi, site, raiser, None)
+
+        def preset(resp):
+            if pre_hdr:
+                resp.set_header(*pre_hdr)
+        app = _install(falcon.asgi.App if asgi else falcon.App, asgi, site, raiser, preset)
         app.resp_options.xml_error_serialization = xml_on
-        if yaml_on:
-            app.resp_options.media_handlers[YAML] = YamlishHandler()
+        mh = app.resp_options.media_handlers
+        if drop_json:
+            del mh[JSON]
+        if drop_forms:
+            del mh[FORM]
+            del mh[MULTI]
+        for e in extra:
+            mh[e] = YamlishHandler()
+        keys = list(mh)                                  # mapping order, as default_serialize_error iterates it
         r = _call(app, stack, via_testing=(ci % 16 == 9), headers={'Accept': accept} if accept is not None else None)
-        case = {'stack': stack, 'site': site, 'kind': kind, 'accept': accept, 'xml_error_serialization': xml_on, 'extra_media_handler': YAML if yaml_on else None,
-                'via_testing': ci % 16 == 9}
+        case = {'stack': stack, 'site': site, 'kind': kind, 'accept': accept, 'xml_error_serialization': xml_on, 'response_media_handlers': keys,
+                'header_set_before_the_raise': pre_hdr, 'via_testing': ci % 16 == 9}
         what = None
         hl = list(hdrs.items()) if isinstance(hdrs, dict) else (hdrs or [])
 
@@ -664,9 +715,41 @@ def _serialization(ctx):
                         return f'header Vary: {v!r} of the error is missing ({r.header("vary")})'
                 elif r.header(k) != [v]:
                     return f'header {k}: {v!r} of the error is missing ({r.header(k)})'
+            if pre_hdr and pre_hdr[0].lower() not in [k.lower() for k, _ in hl]:
+                k, v = pre_hdr
+                if k.lower() == 'vary':
+                    if v.lower() not in ','.join(r.header('vary')).lower():
+                        return f'header Vary: {v!r} set before the raise is missing ({r.header("vary")})'
+                elif r.header(k) != [v]:
+                    return f'header {k}: {v!r} set before the raise is missing ({r.header(k)})'
             return None
+
+        def decode(body, mt):
+            """(which encoder produced the body, the decoded document in document order)"""
+            if body.startswith(b'YAMLISH:'):
+                return 'handler', json.loads(body[8:])
+            if mt in (XML_A, XML_T) or body.startswith(b'<?xml'):
+                root = ET.fromstring(body)
+                got = {}
+                for el in root:
+                    if el.tag == 'link': got['link'] = {x.tag: (x.text or '') for x in el}
+                    elif el.tag == 'code': got['code'] = int(el.text)
+                    else: got[el.tag] = el.text or ''
+                if root.tag != 'error':
+                    got['<root>'] = root.tag
+                return 'xml', got
+            return 'json', json.loads(body.decode('utf-8'))
+        doc = None
+        enc = None
+        ctype = (r.header('content-type') or [None])[0]
+        mt = (ctype or '').split(';')[0].strip().lower()
+        if r.escaped is None and r.body != b'' and kind != 'status':
+            try:
+                enc, doc = decode(r.body, mt)
+            except Exception as e:  # noqa
+                enc, doc = 'undecodable: %r' % (e,), None
         if kind == 'plain':
-            j = _json_or_none(r.body) if r.escaped is None else None
+            j = doc if enc == 'json' else None
             if r.escaped is not None: what = f'exception escaped to the server: {r.escaped!r}'
             elif r.status != 500: what = f'status {r.status} for an unhandled exception'
             elif None not in allowed and JSON in allowed and not (isinstance(j, dict) and j.get('title') == '500 Internal Server Error'): what = f'body {r.body[:80]!r} is not the JSON rendering of HTTPInternalServerError'
@@ -684,8 +767,7 @@ def _serialization(ctx):
             exp = {'title': title or code_int}
             if desc is not None: exp['description'] = desc
             if code is not None: exp['code'] = code
-            if href: exp['link'] = {'text': href_text or 'Documentation related to this error', 'href': _rfc3986_encode(href), 'rel': 'help'}
-            ctype = (r.header('content-type') or [None])[0]
+            if href: exp['link'] = {'text': href_text or LINK_DEFAULT, 'href': _rfc3986_encode(href), 'rel': 'help'}
             if r.escaped is not None: what = f'exception escaped to the server: {r.escaped!r}'
             elif r.status != status_int: what = f'status {r.status}, expected {status_int}'
             elif not _vary_has_accept(r): what = f'Vary does not list Accept: {r.header("vary")}'
@@ -694,32 +776,246 @@ def _serialization(ctx):
                 if r.body == b'':
                     if None not in allowed:
                         what = f'no body although the client accepts {allowed}'
-                else:
-                    mt = (ctype or '').split(';')[0].strip().lower()
-                    if mt not in [a for a in allowed if a]:
-                        what = f'body sent as {ctype!r}; by the Accept header the error should be rendered as one of {allowed}'
-                    elif mt == JSON:
-                        j = _json_or_none(r.body)
-                        if j != exp: what = f'JSON body decodes to {j!r}, the error is {exp!r}'
-                    elif mt in (XML_A, XML_T):
-                        try:
-                            root = ET.fromstring(r.body)
-                            got = {}
-                            for el in root:
-                                if el.tag == 'link': got['link'] = {x.tag: (x.text or '') for x in el}
-                                elif el.tag == 'code': got['code'] = int(el.text)
-                                else: got[el.tag] = el.text or ''
-                            if root.tag != 'error' or got != exp: what = f'XML body decodes to {got!r}, the error is {exp!r}'
-                        except Exception as e:  # noqa
-                            what = f'XML body does not parse: {e!r}: {r.body[:80]!r}'
-                    elif mt == YAML:
-                        if not r.body.startswith(b'YAMLISH:') or json.loads(r.body[8:]) != exp: what = f'configured media handler body {r.body[:80]!r} is not the encoding of {exp!r}'
-                    else:
-                        what = f'body sent as {mt}: {r.body[:80]!r} is not a faithful encoding of {exp!r}'
+                elif mt not in [a for a in allowed if a]:
+                    what = f'body sent as {ctype!r}; by the Accept header the error should be rendered as one of {allowed}'
+                elif doc is None:
+                    what = f'{mt} body does not decode ({enc}): {r.body[:80]!r}'
+                elif enc == 'handler' and mt not in extra:
+                    what = f'body sent as {mt} was produced by the media handler configured for another type: {r.body[:80]!r}'
+                elif (enc == 'json') != (mt == JSON):
+                    what = f'body sent as {mt} is {enc}-encoded: {r.body[:80]!r}'
+                elif dict(doc) != exp:
+                    what = f'{mt} body ({enc}) decodes to {doc!r}, the error is {exp!r}'
             ctx.oracle(name_http, what is None, what, case)
-        ctx.seen(('c', stack, site, kind, accept, xml_on, yaml_on, str(case.get('title')), str(case.get('description')), str(case.get('href')), str(hdrs)), True)
+        # ---- correspondence with the Es model (everything above is independent of it)
+        if r.escaped is None and all(ord(c) < 128 for c in (accept or '')):
+            hs_arg = ','.join(f'{_hx(k)}:1' for k in keys) or '-'
+            acc_arg = 'none' if accept is None else _hx(accept)
+            rh_arg = f'{_hx(pre_hdr[0].lower())}:{_hx(pre_hdr[1])}' if pre_hdr else '-'     # Response._headers holds lower-cased names
+            eh_arg = 'none' if hdrs is None else (','.join(f'{_hx(k)}:{_hx(v)}' for k, v in hl) or '-')
+            names = {k.lower() for k, _ in hl} | ({pre_hdr[0].lower()} if pre_hdr else set())
+            sess.case(case)
+            if kind == 'status':
+                shown = sorted(f'{_hx(k.lower())}:{_hx(v)}' for k, v in r.headers if k.lower() in names)
+                bk = ('notext' if st_text is None else 'text') if r.body == (st_text or '').encode('utf-8') else 'other-body'
+                sess.op(f'cstatus {r.status if r.status == int(falcon.code_to_http_status(st_status)[:3]) else 0} {rh_arg} {eh_arg} {_flag(st_text)}',
+                        f'status={r.status} body={bk} hdrs={",".join(shown) or "-"}')
+            else:
+                # what was chosen, as seen by the client
+                if r.body == b'':
+                    choice = 'none' if ctype == falcon.DEFAULT_MEDIA_TYPE else f'type {_hx(ctype or "")}'
+                elif enc == 'handler': choice = f'media {_hx(ctype or "")}'
+                elif enc == 'xml': choice = f'xml {_hx(ctype or "")}'
+                elif enc == 'json' and ctype == JSON: choice = 'json'
+                else: choice = f'body-of-unknown-kind {_hx(ctype or "")}'
+                sess.op(f'choose {int(xml_on)} {hs_arg} {acc_arg}', choice)
+                if isinstance(doc, dict):
+                    if kind == 'http':
+                        sess.op(f'todict {_flag(title)} {_flag(desc)} {"none" if code is None else code} {_flag(href)} {_flag(href_text)}', _doc_fields(doc, code_int))
+                    else:
+                        sess.op('todict none none none none none', _doc_fields(doc, '500 Internal Server Error'))
+                sets_ct = choice != 'none'
+                shown = sorted(f'{_hx(k.lower())}:{_hx(v)}' for k, v in r.headers if k.lower() in names | {'vary'} | ({'content-type'} if sets_ct else set()))
+                bk = {'json': 'json', 'xml': 'xml', 'media': 'media', 'none': 'untouched', 'type': 'untouched'}.get(choice.split(' ')[0], 'other-body')
+                st_arg = status_int if kind == 'http' else 500
+                sess.op(f'cerror {int(xml_on)} {hs_arg} {acc_arg} {st_arg} {rh_arg} {eh_arg if kind == "http" else "none"}',
+                        f'status={r.status} body={bk} hdrs={",".join(shown) or "-"}')
+                ctx.count('c_model_choice_' + choice.split(' ')[0])
+        ctx.seen(('c', stack, site, kind, accept, xml_on, tuple(keys), str(pre_hdr), str(case.get('title')), str(case.get('description')), str(case.get('href')), str(hdrs)), True)
         ctx.count('c_kind_' + kind)
         ctx.count('c_expected_' + '|'.join(str(a) for a in allowed))
+    sess.finish()
+
+
+# ------------------------------------------------------------------ (d) the modelled functions called directly, exotic configurations
+
+def _direct(ctx):
+    import falcon
+    import falcon.asgi
+    import falcon.media
+    import falcon.testing as ft
+    from falcon.app_helpers import default_serialize_error
+    from falcon.response import ResponseOptions
+    rnd = ctx.rng
+    sess = ctx.session('default_serialize_error / HTTPError.to_dict / _compose_error_response / _compose_status_response called directly '
+                       '(handler keys with wildcards, parameters, other case, falsy handlers; malformed Accept; repeated header names) = Es model', 'esdriver')
+    name_neg = ('default_serialize_error, any configuration: Vary: Accept is appended; the Content-Type set is never a request-only form type and never a type the client refuses '
+                'outright; a body is only set together with a Content-Type; JSON is chosen when no offered type has a higher quality')
+    name_dict = 'to_dict(): title always (status line when missing/empty), description/code/link exactly when set, link = text/href/rel'
+    name_comp = '_compose_error_response / _compose_status_response: status and headers of the raised object are on the response (last item per name), other headers kept'
+
+    class Stub:
+        def to_json(self, handler=None): return b'J'
+        def to_dict(self): return {'D': 1}
+        def _to_xml(self): return b'X'
+
+    class H(falcon.media.BaseHandler):
+        def serialize(self, media, content_type): return b'H'
+        def deserialize(self, *a): return None
+
+    keys_pool = [JSON, XML_T, XML_A, FORM, MULTI, YAML, VND_JSON, 'application/vnd.acme+xml', 'text/*', '*/*', 'text/xml; charset=utf-8', 'Application/JSON',
+                 'application/yaml', 'text/html', 'application/*', 'nonsense', 'application/json; v=1', 'text/plain']
+    ranges_pool = [JSON, XML_T, XML_A, FORM, MULTI, YAML, VND_JSON, 'application/vnd.acme+xml', 'text/*', '*/*', 'application/*', 'text/html', 'image/png',
+                   'Application/Vnd.X+JSON', 'a/b+XML', 'text/xml;charset=utf-8', 'application/json;v=1', 'foo', '*', '', 'application/yaml', 'text/plain', '+json',
+                   'x+xml', '*/json', 'APPLICATION/JSON', 'multipart/*']
+    q_pool = [None, None, None, '0', '0.1', '0.5', '0.9', '1', '1.0', '0.000', 'abc', '2', '-1', '0.33', ' 0.7', '.5']
+    for ci in range(ctx.n(16000, 200000)):
+        asgi = rnd.random() < 0.5
+        xml_on = rnd.random() < 0.6
+        if rnd.random() < 0.4:
+            hs = [(JSON, 1), (MULTI, 1), (FORM, 1)]
+            for k in rnd.sample(keys_pool, rnd.randint(0, 2)):
+                if k not in [h[0] for h in hs]:
+                    hs.append((k, 1))
+        else:
+            hs = [(k, 0 if rnd.random() < 0.1 else 1) for k in rnd.sample(keys_pool, rnd.randint(0, 5))]
+        if rnd.random() < 0.15:
+            accept = None
+        else:
+            parts = []
+            for mt in [rnd.choice(ranges_pool) for _ in range(rnd.randint(1, 4))]:
+                q = rnd.choice(q_pool)
+                parts.append(mt if q is None else f'{mt}{rnd.choice([";", "; ", " ;"])}{rnd.choice(["q", "q", "Q"])}={q}')
+            accept = rnd.choice([',', ', ']).join(parts).strip() or 'x'     # (servers and the test helpers strip the field value)
+        opts = ResponseOptions()
+        opts.xml_error_serialization = xml_on
+        opts.media_handlers = falcon.media.Handlers({k: (H() if t else None) for k, t in hs})
+        hd = {'Accept': accept} if accept is not None else None
+        if asgi:
+            req = falcon.asgi.Request(ft.create_scope(headers=hd), None)
+            resp = falcon.asgi.Response(options=opts)
+        else:
+            req = falcon.Request(ft.create_environ(headers=hd))
+            resp = falcon.Response(options=opts)
+        case = {'stack': 'asgi' if asgi else 'wsgi', 'accept': accept, 'xml_error_serialization': xml_on, 'media_handlers (key, truthy)': hs}
+        what = None
+        try:
+            default_serialize_error(req, resp, Stub())
+            ct = resp.content_type
+            if resp.data == b'J': got = 'json' if ct == JSON else 'json-labelled ' + _hx(str(ct))
+            elif resp.data == b'X': got = 'xml ' + _hx(ct or '')
+            elif resp.media == {'D': 1}: got = 'media ' + _hx(ct or '')
+            elif ct is not None: got = 'type ' + _hx(ct)
+            else: got = 'none'
+            vary = resp.get_header('vary')
+            # ---- oracle, from the statement (simple RFC 7231 reading; only when header and keys carry no parameters other than q)
+            if vary != 'Accept':
+                what = f'Vary is {vary!r} after the default serializer'
+            elif ct in (FORM, MULTI):
+                what = f'the error is labelled {ct}, a request-only form type'
+            elif ct is None and (resp.data is not None or resp.media is not None):
+                what = 'a body without a Content-Type'
+            else:
+                rngs = []
+                for m in (accept or '*/*').split(','):
+                    g = _SIMPLE_RANGE.match(m)
+                    if not g or not 0 <= float(g.group(3) or 1) <= 1:
+                        rngs = None           # parameters, upper case, "*/sub", malformed members: outside this simple oracle
+                        break
+                    t = '*/*' if g.group(1) == '*' else g.group(1)
+                    rngs.append(tuple(t.split('/')) + (float(g.group(3) or 1),))
+                if rngs is not None:
+                    qj = _quality(JSON, rngs)
+                    if ct is not None and '*' not in ct and ';' not in ct and '/' in ct and _quality(ct.lower(), rngs) == 0 and '+' not in (accept or ''):
+                        what = f'the error is labelled {ct}, which the client does not accept ({accept!r})'
+                    elif qj > 0 and got != 'json' and all('/' in k and ';' not in k and '*' not in k for k, _ in hs):
+                        others = ([XML_T, XML_A] if xml_on else []) + [k for k, _ in hs if k not in (FORM, MULTI)]
+                        if all(_quality(k.lower(), rngs) <= qj for k in others):
+                            what = f'JSON has the highest quality ({qj}) among the offered types but the choice is {got}'
+        except Exception as e:  # noqa
+            got = 'raised ' + type(e).__name__
+            what = f'default_serialize_error raised {e!r}'
+        ctx.oracle(name_neg, what is None, what, case)
+        sess.case(case)
+        sess.op(f'choose {int(xml_on)} {",".join(_hx(k) + ":" + str(t) for k, t in hs) or "-"} {"none" if accept is None else _hx(accept)}', got)
+        ctx.seen(('d', asgi, xml_on, tuple(hs), accept), True)
+        ctx.count('d_choice_' + got.split(' ')[0])
+        if ci % 4:
+            continue
+        # ---- HTTPError.__init__ / to_dict
+        txt = lambda: rnd.choice([None, None, '', 'x', 'Some text'])   # noqa: E731
+        title, desc, href, href_text = txt(), txt(), rnd.choice([None, '', 'http://example.com/a b', '/rel']), txt()
+        code = rnd.choice([None, None, 0, 7, -5])
+        status_val = rnd.choice([400, 404, 409, 500, '418 I\'m a teapot'])
+        err = falcon.HTTPError(status_val, title=title, description=desc, href=href, href_text=href_text, code=code)
+        d = err.to_dict()
+        line = falcon.code_to_http_status(status_val)
+        expd = {'title': title if title else line}
+        if desc is not None: expd['description'] = desc
+        if code is not None: expd['code'] = code
+        if href: expd['link'] = {'text': href_text if href_text else LINK_DEFAULT, 'href': _rfc3986_encode(href), 'rel': 'help'}
+        case2 = {'title': title, 'description': desc, 'code': code, 'href': href, 'href_text': href_text, 'status': status_val}
+        ctx.oracle(name_dict, dict(d) == expd and list(d) == list(expd), f'to_dict() = {d!r}, expected {expd!r}', case2)
+        sess.case(case2)
+        sess.op(f'todict {_flag(title)} {_flag(desc)} {"none" if code is None else code} {_flag(href)} {_flag(href_text)}', _doc_fields(d, line))
+        # ---- _compose_error_response / _compose_status_response on a response that already carries headers
+        hn = ['X-Err', 'x-err', 'X-ERR', 'Retry-After', 'Vary', 'vary', 'Content-Type', 'content-type', 'X-Other']
+        if rnd.random() < 0.06:
+            hn = hn + ['Set-Cookie', 'SET-COOKIE'] * 3
+        pre = [(rnd.choice(hn[:9]), rnd.choice(['p1', 'Origin', 'text/plain'])) for _ in range(rnd.randint(0, 3))]
+        eh = rnd.choice([None, [(rnd.choice(hn), rnd.choice(['e1', 'e2', 'Cookie', 'text/css'])) for _ in range(rnd.randint(0, 4))]])
+        eh_obj = eh if (eh is None or rnd.random() < 0.5 or len({k for k, _ in eh}) != len(eh)) else dict(eh)
+        app = (falcon.asgi.App if asgi else falcon.App)()
+        app.resp_options.xml_error_serialization = xml_on
+        app.resp_options.media_handlers = opts.media_handlers
+        resp2 = (falcon.asgi.Response if asgi else falcon.Response)(options=app.resp_options)
+        for k, v in pre:
+            resp2.set_header(k, v)
+        before = dict(resp2.headers)
+        is_status = rnd.random() < 0.3
+        st_text = rnd.choice([None, '', 'status text'])
+        obj = falcon.HTTPStatus(299, headers=eh_obj, text=st_text) if is_status else falcon.HTTPError(status_val, headers=eh_obj)
+        case3 = {'stack': case['stack'], 'raised': 'HTTPStatus' if is_status else 'HTTPError', 'its_headers': eh_obj, 'response_headers_before': before,
+                 'accept': accept, 'xml_error_serialization': xml_on, 'media_handlers (key, truthy)': hs}
+        what = None
+        try:
+            if is_status:
+                app._compose_status_response(req, resp2, obj)
+            else:
+                app._compose_error_response(req, resp2, obj)
+            after = dict(resp2.headers)
+            if is_status:
+                bk = ('notext' if resp2.text is None else 'text') if resp2.text == st_text else 'other-body'
+            elif resp2.media is not None: bk = 'media'
+            elif resp2.data is None: bk = 'untouched'
+            elif resp2.data.startswith(b'<?xml'): bk = 'xml'
+            else: bk = 'json'
+            obs = f'status={resp2.status_code} body={bk} hdrs=' + (','.join(sorted(f'{_hx(k)}:{_hx(v)}' for k, v in after.items())) or '-')
+            # oracle: last item per name wins; Vary gets ", Accept"; untouched names keep their value
+            last = {}
+            for k, v in (eh or []):
+                last[k.lower()] = v
+            for k, v in last.items():
+                if k == 'vary' and not is_status:
+                    if after.get(k) != v + ', Accept': what = what or f'Vary is {after.get(k)!r}, expected {v + ", Accept"!r}'
+                elif k == 'content-type' and not is_status and bk != 'untouched':
+                    pass
+                elif k == 'content-type' and not is_status and after.get(k) not in (v, XML_A, XML_T):
+                    what = what or f'Content-Type is {after.get(k)!r}'
+                elif k != 'content-type' and after.get(k) != v:
+                    what = what or f'header {k} is {after.get(k)!r}, the raised object says {v!r}'
+            for k, v in before.items():
+                if k not in last and k != 'content-type' and not (k == 'vary' and not is_status) and after.get(k) != v:
+                    what = what or f'header {k}: {v!r} of the response became {after.get(k)!r}'
+            if not is_status and 'accept' not in [x.strip().lower() for x in after.get('vary', '').split(',')]:
+                what = what or f'Vary does not list Accept: {after.get("vary")!r}'
+            if resp2.status_code != (299 if is_status else int(line[:3])):
+                what = what or f'status {resp2.status_code}'
+        except falcon.HeaderNotSupported:
+            obs = 'header-not-supported'
+            if not any(k.lower() == 'set-cookie' for k, _ in (eh or [])):
+                what = 'HeaderNotSupported without a Set-Cookie item'
+        ctx.oracle(name_comp, what is None, what, case3)
+        sess.case(case3)
+        rh_arg = ','.join(f'{_hx(k)}:{_hx(v)}' for k, v in before.items()) or '-'
+        eh_arg = 'none' if eh is None else (','.join(f'{_hx(k)}:{_hx(v)}' for k, v in eh) or '-')
+        hs_arg = ','.join(_hx(k) + ':' + str(t) for k, t in hs) or '-'
+        if is_status:
+            sess.op(f'cstatus 299 {rh_arg} {eh_arg} {_flag(st_text)}', obs)
+        else:
+            sess.op(f'cerror {int(xml_on)} {hs_arg} {"none" if accept is None else _hx(accept)} {int(line[:3])} {rh_arg} {eh_arg}', obs)
+        ctx.count('d_compose_' + obs.split(' ')[0].split('=')[0])
+    sess.finish()
 
 
 LEVEL_TEXT = ('Machine-checked proofs (Lean 4) about a transcription of add_error_handler/_find_error_handler/_handle_exception: the handler of the nearest class in the MRO with the latest '
